@@ -109,6 +109,36 @@ def clause_b(ctx, P):
 
 
 
+def _false_sources(h, l, pos, want=False, depth=0, seen=None):
+    """([(bb, idx)] of the constant assignments that make local l == `want` at pos, all definitions understood?)"""
+    seen = seen if seen is not None else set()
+    out, known = [], True
+    if depth > 8:
+        return out, False
+    for (db, di, kind, payload) in h.reaching_defs(l, pos):
+        if (db, di, l, want) in seen:
+            continue
+        seen.add((db, di, l, want))
+        if kind != "assign":
+            known = False
+            continue
+        r = payload
+        if r["k"] == "use" and r["a"]["k"] == "const":
+            if bool(r["a"].get("val")) is want:
+                out.append((db, di))
+        elif r["k"] == "use" and r["a"]["k"] in ("copy", "move") and not r["a"]["p"]["proj"]:
+            o2, k2 = _false_sources(h, r["a"]["p"]["l"], (db, di), want, depth + 1, seen)
+            out += o2
+            known = known and k2
+        elif r["k"] == "unop" and r.get("op") == "Not" and r["a"]["k"] in ("copy", "move") and not r["a"]["p"]["proj"]:
+            o2, k2 = _false_sources(h, r["a"]["p"]["l"], (db, di), not want, depth + 1, seen)
+            out += o2
+            known = known and k2
+        else:
+            known = False
+    return out, known
+
+
 def is_for_us_rule(ctx, P, pre):
     """a received record set is kept iff some PTR in it is for a browsed type: the flag handed to the cache
     becomes false only under `!service_queriers.contains_key(..)`"""
@@ -128,10 +158,12 @@ def is_for_us_rule(ctx, P, pre):
                 l = ds[0][3]["a"]["p"]["l"]
             else:
                 break
-        ok = bool(h.locals[l].get("name"))      # a user variable of handle_response (whatever it is called)
-        ctx.ob(pre + ".is-for-us-passed", h.name, ok, h.loc(b), "add_or_update receives the handler's is_for_us flag")
-        # every `false` assignment is under !service_queriers.contains_key; membership tests exist for both maps; accept_unsolicited forces true
-        falses = [(bb, i) for bb, i, s in h.assigns() if not s["p"]["proj"] and s["p"]["l"] == l and s["r"]["k"] == "use" and s["r"]["a"].get("val") in (0, False)]
+        # every constant from which the flag can end up false (through copies, `!flag`, joins; whatever the variables are
+        # called and wherever the computation lives after inlining)
+        falses, known = _false_sources(h, a["p"]["l"], endpos(h, b))
+        ok = known and bool(falses)
+        ctx.ob(pre + ".is-for-us-passed", h.name, ok, h.loc(b), "add_or_update receives a flag computed in the handler from constants (%d place(s) can make it false)" % len(falses))
+        # every `false` source is under !service_queriers.contains_key; membership tests exist for both maps; accept_unsolicited forces true
         e_nq = guard_edges(P, h, lambda atom, outcome, bb: atom[0] == "call" and name_matches(strip_generics(atom[1]), "HashMap::contains_key") and outcome is False
                            and expr_mentions_field(atom, "service_queriers", "Zeroconf"))
         okf = bool(falses) and all(must_pass_edges(h, bb, e_nq) for (bb, i) in falses)
